@@ -918,7 +918,15 @@ func main() {
 	}
 	var rdterms, lvterms []string
 	for _, c := range rds {
-		runRd(c)
+		func() {
+			// a crash of the code under test is a violation on this case, not a harness failure
+			defer func() {
+				if x := recover(); x != nil {
+					fmt.Printf("HARNESS-VIOLATION %d panic in Reader: %v\n", c.ID, x)
+				}
+			}()
+			runRd(c)
+		}()
 		rdterms = append(rdterms, rdTerm(c))
 		for _, o := range c.Ops {
 			ops["rd/"+o.Op]++
